@@ -199,6 +199,36 @@ def parked_polled(F, R):
          'polling of the parked handler future is gated by a comparison of queue indices: when it is not at the head its wake-up is consumed without polling it and its response is withheld until an unrelated event', poll.loc(gates[0]) if gates else poll.loc(first))
 
 
+def parked_kept(F, R):
+    """Once the parked handler future was taken out of `state.response`, no path leaves the function before it was
+    put back (`response.set(..)`), completed (`handle_result`) or found absent: an early return in between drops the
+    future - the handler is cancelled, its slot stays Pending at the head and every later response is withheld."""
+    n = 0
+    for b in F.find(r'^(<)?io::'):
+        takes = [bi for bi, t in b.calls_to(r'^std::cell::Cell::<T>::take$') if (call_recv_path(b, t, 0) or ('',))[-1] == 'response']
+        if not takes:
+            continue
+        settle = {bi for bi, t in b.calls_to(r'^std::cell::Cell::<T>::set$') if (call_recv_path(b, t, 0) or ('',))[-1] == 'response'}
+        settle |= {bi for bi, t in b.calls_to(r'io::DispatcherState::<P, U>::handle_result$')}
+        for tk in takes:
+            n += 1
+            none_targets = set()
+            dl = b.blocks[tk]['term']['dest']['l']
+            for sb in sorted(b.live):
+                t = b.blocks[sb]['term']
+                if t['k'] != 'switch':
+                    continue
+                og = Origin(b).of_operand(t['discr'])
+                if any(l[0] == 'call' and l[2] == tk for l in og) and 'Option' in b.local_ty(dl):
+                    tg = dict((v, x) for v, x in t['targets'])
+                    none_targets.add(tg.get(0, t['otherwise']))
+            avoid = settle | none_targets
+            early = [r for r in b.returns() if r in b.reachable_after(tk, avoid=avoid)]
+            R.ob('C04.park', '%s|taken-response-future-is-restored-or-completed' % b.path.split('::{')[0], not early and bool(settle),
+                 'after `state.response.take()` the function can return (e.g. `ready!(..)`, `?`) before the future is put back or its result handled: the in-progress handler future is dropped, its response and all later ones are never written', b.loc(early[0]) if early else b.loc(tk))
+    R.floor('C04.park', 'takes of the parked response future', n, 1)
+
+
 def no_bypass(F, R):
     """Responses reach the wire only through the return value of the dispatcher calls (which the io layer
     orders): the reviewed direct writes of C03.single-writer are the only ones."""
@@ -215,6 +245,7 @@ def no_bypass(F, R):
 def run(F, R):
     no_bypass(F, R)
     parked_polled(F, R)
+    parked_kept(F, R)
     cs = queue_head(F, R)
     slot_per_call(F, R, cs)
     control_serial(F, R)
